@@ -26,7 +26,7 @@ object threaded through the whole game.
 * `cairn_undo_resigns_composed`, `doubleStack_resume_resigns_composed`, `doubleStack_resume_panics_composed` – the
   findings of work package botglue are reachable in the composed system. -/
 namespace C07
-open Tak Tak.Bot Tak.Glue Tak.FPA Tak.Compose
+open Tak Tak.Bot Tak.Glue Tak.FPA Tak.Compose Spec.FPA
 
 variable {σ χ : Type}
 
@@ -328,5 +328,120 @@ theorem bot_inv_taktician (c : Compose.Conf) (tc : TakticianCfg) (hw : c.who = .
     intro call hcall
     rw [callOK_taktician hw (h3 call hcall)]
     exact resignWire_of_not_sends (C20.taktician_never_sends tc c.bot.color c.size call.pos call.mine).1
+
+
+/-! ## no `GetMove` call of the current invocation reads the record out of range -/
+
+/-- `C20.friendly_total` with the hypothesis on the record only where the code reads it: the pair below the newest
+position when `p` is not a start position, and `Positions[len-2]` when the check engine claims a win in one -/
+theorem friendly_total_of (fpa : Option (Variant × Rule)) (g : GameRec) (p : Pos) (o : CheckOracle)
+    (hrule : C20.RuleTotal fpa g p)
+    (hrec : p.move > 0 → 2 ≤ g.positions.length ∧ 1 ≤ g.moves.length)
+    (hchk : asksPrev o = true → 2 ≤ g.positions.length) :
+    ∃ x, Glue.friendlyGetMove fpa g p o = .ok x := by
+  have hw : ∃ w, waitUndo g o = .ok w := by
+    unfold waitUndo
+    split
+    · exact ⟨_, rfl⟩
+    · rename_i ha
+      have ha' : asksPrev o = true := by simpa using ha
+      have hl := hchk ha'
+      match hg : g.positions with
+      | _ :: _ :: _ => exact ⟨_, rfl⟩
+      | [] => rw [hg] at hl; simp at hl
+      | [_] => rw [hg] at hl; simp at hl
+  obtain ⟨w, hw⟩ := hw
+  rw [Tak.Glue.friendly_cases]
+  cases fpa with
+  | none =>
+    rw [fpaCheck_none]
+    simp only [fpaScript, hw]
+    split <;> exact ⟨_, rfl⟩
+  | some vr =>
+    obtain ⟨var, r⟩ := vr
+    obtain ⟨hl, hgm⟩ := hrule var r rfl
+    rw [fpaCheck_some]
+    unfold prevCheck
+    by_cases hp : p.move > 0
+    · obtain ⟨q, m, hq⟩ : ∃ q m, prevOf g = .ok (q, m) := by
+        unfold prevOf
+        obtain ⟨hp2, hm⟩ := hrec hp
+        match hg : g.positions, hg2 : g.moves with
+        | _ :: q :: _, m :: _ => exact ⟨q, m, rfl⟩
+        | [], _ => rw [hg] at hp2; simp at hp2
+        | [_], _ => rw [hg] at hp2; simp at hp2
+        | _ :: _ :: _, [] => rw [hg2] at hm; simp at hm
+      simp only [hp, if_true, hq]
+      obtain ⟨⟨r', ok⟩, hx⟩ := hl q m hq
+      rw [hx]
+      cases ok with
+      | false =>
+        obtain ⟨msg, he⟩ := errMsg_ok_of_reject hx
+        simp only [he]
+        exact ⟨_, rfl⟩
+      | true =>
+        simp only [fpaScript]
+        obtain ⟨y, hy⟩ := hgm r'
+        rw [hy]
+        split
+        · exact ⟨_, rfl⟩
+        · cases y <;> simp only [hw] <;> exact ⟨_, rfl⟩
+    · simp only [hp, if_false, fpaScript]
+      obtain ⟨y, hy⟩ := hgm r
+      rw [hy]
+      split
+      · exact ⟨_, rfl⟩
+      · cases y <;> simp only [hw] <;> exact ⟨_, rfl⟩
+
+/-- **`current_thinker_total`** — in every reachable state of the composed system whose protocol goroutine has not
+panicked, a `Friendly.GetMove` call by the thinker of the CURRENT `handleMove` invocation runs through: it does not read
+the record out of range (`f.g.Positions[len-2]`, `f.g.Moves[len-1]`), whatever the interleaving that led there (undo,
+replayed history, late thinkers).  The position the thinker was started on is still in the record, and the record
+still ends in the start position.  Assumed: the rule's own code does not panic (`C20.RuleTotal`; see
+`doubleStack_resume_panics_composed` for a reachable state where it does), and the check engine claims a win in
+one only on a position that is not a start position (C05 `verdict_sound`: no road on an empty board).
+For a thinker of an EARLIER invocation the statement is false on the tree before `fixes/C07-stale-thinker.diff`
+(`stale_thinker_panics`); with the fix such a call returns before it reads anything. -/
+theorem current_thinker_total (c : Compose.Conf) (var : Option Variant) (hw : c.who = .friendly var)
+    (hfix : c.bot.fixed = true) (hsize : 3 ≤ c.size ∧ c.size ≤ 8) (S : Searcher σ χ) (secs : Int) (eng0 : σ)
+    (evs : List (Compose.Ev χ)) (chk : CheckOracle)
+    (hnc : ¬ (Compose.run c S (Compose.start c secs eng0) evs).b.crashed)
+    (hrule : C20.RuleTotal (Compose.run c S (Compose.start c secs eng0) evs).fpa
+      (recOf c (Compose.run c S (Compose.start c secs eng0) evs).b) (Compose.run c S (Compose.start c secs eng0) evs).b.cur.pos)
+    (hchk : asksPrev chk = true → (Compose.run c S (Compose.start c secs eng0) evs).b.cur.pos.move > 0) :
+    ∃ x, glueCall c (Compose.run c S (Compose.start c secs eng0) evs).fpa (Compose.run c S (Compose.start c secs eng0) evs).b
+      (Compose.run c S (Compose.start c secs eng0) evs).b.cur chk = .ok x := by
+  obtain ⟨hs, _, _⟩ := composed_loop_facts c hfix hsize S secs eng0 evs
+  obtain ⟨p0, hp0, hP0⟩ := pinv_startBot c secs hsize
+  have hA : ∀ (p : Pos) (m : Move) (q : Pos), p.cfg.size = c.size → p.apply c.bot.basis m = .ok q → q.cfg.size = c.size :=
+    fun p m q hp ha => by rw [apply_cfg ha]; exact hp
+  have hP : PInv (fun p => p.cfg.size = c.size) p0 (Compose.run c S (Compose.start c secs eng0) evs).b := by
+    obtain ⟨bevs, hb⟩ := compose_refines c S secs eng0 evs
+    rw [hb]
+    exact pinv_run hA c.bot rfl hP0 bevs
+  generalize Compose.run c S (Compose.start c secs eng0) evs = s at *
+  have hshape := hs.core.shape hnc
+  have hmem := hP.cmem hnc
+  have hlast := hP.last hnc
+  have hlen : s.b.cur.pos.move > 0 → 2 ≤ s.b.positions.length := by
+    intro hm
+    match hps : s.b.positions with
+    | [] => rw [hps] at hmem; cases hmem
+    | [x] =>
+      rw [hps] at hmem hlast
+      simp only [List.getLast?_singleton, Option.some.injEq] at hlast
+      simp only [List.mem_singleton] at hmem
+      rw [hmem, hlast, hp0] at hm
+      exact absurd hm (by decide)
+    | _ :: _ :: _ => simp
+  unfold glueCall glueOn
+  rw [hw]
+  apply friendly_total_of _ _ _ _ hrule
+  · intro hm
+    have := hlen hm
+    show 2 ≤ s.b.positions.length ∧ 1 ≤ s.b.moves.length
+    omega
+  · intro ha
+    exact hlen (hchk ha)
 
 end C07
